@@ -453,7 +453,10 @@ Verdict(o) == IF After(o) = "Crashed" THEN "crash"
 \* named; a crash or wedge during the program is the crash / wedge of the storing request.
 \* target: "new" a key of the program's own, "new2" a second one, "bucket", "key" the key of
 \* the storing request (object-level endpoints only)
-Stores(ep) == ep.m \in {"PUT", "POST", "DELETE", "PATCH"} /\ ep.p # <<>> /\ ep.p[1].k = "bucket"
+\* (an accepted account-management request stores too: the account file it rewrote is read by
+\* every later request of an account that is not cached - targets "unknown-key": ListBuckets
+\* signed with an access key the gateway does not know, "user": ListBuckets by a plain user)
+Stores(ep) == ep.m \in {"PUT", "POST", "DELETE", "PATCH"} /\ ep.p # <<>> /\ ep.p[1].k \in {"bucket", "admin"}
 FU(name, m, target, q, h, body) == [name |-> name, m |-> m, target |-> target, q |-> q, h |-> h, body |-> body]
 FollowUps == <<
   FU("put",            "PUT",    "new",    "",               <<>>, "follow-up data"),
@@ -480,7 +483,9 @@ FollowUps == <<
   FU("key-acl",        "GET",    "key",    "acl=",           <<>>, ""),
   FU("key-retention",  "GET",    "key",    "retention=",     <<>>, ""),
   FU("key-legal-hold", "GET",    "key",    "legal-hold=",    <<>>, ""),
-  FU("key-attributes", "GET",    "key",    "attributes=",    << <<"x-amz-object-attributes", "ETag,ObjectSize,StorageClass,Checksum,ObjectParts">> >>, "") >>
+  FU("key-attributes", "GET",    "key",    "attributes=",    << <<"x-amz-object-attributes", "ETag,ObjectSize,StorageClass,Checksum,ObjectParts">> >>, ""),
+  FU("unknown-key",    "GET",    "unknown-key", "",          <<>>, ""),
+  FU("user",           "GET",    "user",   "",               <<>>, "") >>
 
 \* ---- lemmas about the grammar itself (checked by TLC in ApiGrammarVec)
 Placeholders == {"$BUCKET", "$KEY", "$VERSION", "$UPLOAD", "$MPKEY", "$ETAG1", "$ETAGKEY", "$PUTKEY", "$COPYKEY",
